@@ -8,7 +8,8 @@ package hotstuffpb
 // What the protobuf decoder produces: oneof wrapper objects and the elements of repeated
 // message fields are never nil (everything else may be absent).
 //@ pred wiresig(s *QuorumSignature) = (istype(s.Sig, *QuorumSignature_ECDSASigs) ==> as(s.Sig, *QuorumSignature_ECDSASigs) != nil && (as(s.Sig, *QuorumSignature_ECDSASigs).ECDSASigs != nil ==> (forall i int :: {as(s.Sig, *QuorumSignature_ECDSASigs).ECDSASigs.Sigs[i]} 0 <= i && i < len(as(s.Sig, *QuorumSignature_ECDSASigs).ECDSASigs.Sigs) ==> as(s.Sig, *QuorumSignature_ECDSASigs).ECDSASigs.Sigs[i] != nil))) && (istype(s.Sig, *QuorumSignature_EDDSASigs) ==> as(s.Sig, *QuorumSignature_EDDSASigs) != nil && (as(s.Sig, *QuorumSignature_EDDSASigs).EDDSASigs != nil ==> (forall i int :: {as(s.Sig, *QuorumSignature_EDDSASigs).EDDSASigs.Sigs[i]} 0 <= i && i < len(as(s.Sig, *QuorumSignature_EDDSASigs).EDDSASigs.Sigs) ==> as(s.Sig, *QuorumSignature_EDDSASigs).EDDSASigs.Sigs[i] != nil))) && (istype(s.Sig, *QuorumSignature_BLS12Sig) ==> as(s.Sig, *QuorumSignature_BLS12Sig) != nil)
-//@ pred wireheap() = forall s *QuorumSignature :: s != nil ==> wiresig(s)
+// Byte fields are bounded by the transport's message size limit (far below 2^28).
+//@ pred wireheap() = (forall s *QuorumSignature :: s != nil ==> wiresig(s)) && (forall a *BLS12AggregateSignature :: len(a.Participants) <= 268435456)
 
 //@ func QuorumSignatureFromProto property C10
 //@   mode bytebv
